@@ -82,6 +82,19 @@ pub fn eval(p: &Prog, sols: &Option<Vec<Vec<isize>>>) -> (String, Option<String>
                 let (plus, u, v, w) = match g {
                     PG::PlusZ(u, v, w) => (true, u, v, w),
                     PG::TimesZ(u, v, w) => (false, u, v, w),
+                    PG::Eq(l, r) => {
+                        // an equality holds in the answer: both sides are the same term under the answer's bindings
+                        // (aliased operands: a value given to one of them is the value of the other)
+                        let inst = |t: &T| t.subst(&|x| match x {
+                            T::Var(k) => Some(a.terms[*k].clone()),
+                            _ => None,
+                        });
+                        if inst(l) != inst(r) {
+                            fail = Some(format!("the answer `{}` does not satisfy the equality {:?}", a.show(""), g));
+                            break;
+                        }
+                        continue;
+                    }
                     _ => continue,
                 };
                 let (a, b, c) = (val(u), val(v), val(w));
@@ -144,6 +157,10 @@ fn corpus() -> Vec<&'static str> {
         "prog 2 2 0 - plusz v0 v0 v1 eq v0 i3",
         "prog 4 4 0 - plusz v0 v1 v3 plusz v3 v2 i9 eq v0 i1 eq v1 i2",
         "prog 3 3 0 - eq v2 i7 eq v0 i2 eq v1 i3 timesz v0 v1 v2",
+        // the result operand is aliased to another unbound variable when the constraint fires (seeded change C19-b)
+        "prog 2 2 0 - eq v0 v1 plusz i1 i2 v0",
+        "prog 3 3 0 - plusz v0 i2 v1 eq v1 v2 eq v0 i1",
+        "prog 2 2 0 - eq v1 v0 timesz i2 v0 i6",
     ]
 }
 
@@ -176,6 +193,13 @@ pub fn run(seed: u64, thorough: bool, out: &mut Out) {
             .collect();
         for _ in 0..r.below(4) {
             body.push(PG::Eq(var(&mut r), num(&mut r)));
+        }
+        // operands aliased to each other by unification (in either direction, before or after the constraints fire)
+        if nv > 1 && r.chance(1, 3) {
+            for _ in 0..1 + r.below(2) {
+                body.push(PG::Eq(var(&mut r), var(&mut r)));
+                out.stat("aliasing_equalities");
+            }
         }
         let p = Prog { nvars: nv, nq: nv, take: 0, body, raw: false };
         out.stat("programs");
